@@ -1,32 +1,13 @@
-"""Mutation catalogue for bin/selftest: (property, name, [(file, old, new)])."""
+"""Collects the mutation catalogues in selftest.d/*.py.  Each file defines
+MUTATIONS and CONTROLS: lists of (property, name, [(file, old, new)]) where
+`old` must occur exactly once in `file` (relative to the repository root)."""
+import glob
+import os
+import runpy
 
-MM = "aiocoap/messagemanager.py"
-TM = "aiocoap/tokenmanager.py"
-
-MUTATIONS = [
-    ("C03", "timeout*=1.5", [(MM, "            timeout *= 2\n", "            timeout *= 1.5\n")]),
-    ("C03", "retransmit-counter-<=", [(MM, "if retransmission_counter < message.transport_tuning.MAX_RETRANSMIT:", "if retransmission_counter <= message.transport_tuning.MAX_RETRANSMIT:")]),
-    ("C03", "ack-matched-by-mid-only", [(MM, """        key = (message.remote, message.mid)
-
-        if key not in self._active_exchanges:
-            # Before turning""", """        key = (message.remote, message.mid)
-        for k in self._active_exchanges:
-            if k[1] == message.mid:
-                key = k
-
-        if key not in self._active_exchanges:
-            # Before turning""")]),
-    ("C03", "initial-timeout-from-zero", [(MM, "        timeout = random.uniform(\n            message.transport_tuning.ACK_TIMEOUT,\n", "        timeout = random.uniform(\n            message.transport_tuning.ACK_TIMEOUT / 2,\n")]),
-    ("C03", "rst-does-not-fail-request", [(MM, "        if message.mtype is RST:\n            messageerror_monitor()\n", "        if message.mtype is RST:\n            pass\n")]),
-    ("C03", "giveup-not-propagated", [(MM, "            self.token_manager.dispatch_error(\n                error.ConRetransmitsExceeded(\"Retransmissions exceeded\"), message.remote\n            )", "            pass")]),
-    ("C03", "default-tuning-used", [(MM, "        if retransmission_counter < message.transport_tuning.MAX_RETRANSMIT:", "        if retransmission_counter < 4:")]),
-    ("C14", "backlog-pop-last", [(MM, "self._backlogs[remote].pop(0)", "self._backlogs[remote].pop()")]),
-    ("C14", "con-sent-despite-backlog", [(MM, "        if message.mtype == CON and message.remote in self._backlogs:", "        if message.mtype == CON and message.remote in self._backlogs and len(self._backlogs[message.remote]) < 1:")]),
-    ("C14", "no-continue-after-rst", [(MM, "        self.log.debug(\"Exchange removed, message ID: %d.\", message.mid)\n\n        self._continue_backlog(message.remote)", "        self.log.debug(\"Exchange removed, message ID: %d.\", message.mid)\n\n        if message.mtype is not RST:\n            self._continue_backlog(message.remote)\n        elif not self._backlogs.get(message.remote):\n            self._backlogs.pop(message.remote, None)")]),
-    ("C14", "giveup-forgets-queued", [(MM, "            self.token_manager.dispatch_error(\n                error.ConRetransmitsExceeded(\"Retransmissions exceeded\"), message.remote\n            )", "            messageerror_monitor()")]),
-]
-
-CONTROLS = [
-    ("C03", "initial-timeout-midpoint", [(MM, "        timeout = random.uniform(\n            message.transport_tuning.ACK_TIMEOUT,\n            message.transport_tuning.ACK_TIMEOUT\n            * message.transport_tuning.ACK_RANDOM_FACTOR,\n        )", "        timeout = (random.uniform(\n            message.transport_tuning.ACK_TIMEOUT,\n            message.transport_tuning.ACK_TIMEOUT\n            * message.transport_tuning.ACK_RANDOM_FACTOR,\n        ) + message.transport_tuning.ACK_TIMEOUT * (1 + message.transport_tuning.ACK_RANDOM_FACTOR) / 2) / 2")]),
-    ("C14", "mids-allocated-downwards", [(MM, "self.message_id = 0xFFFF & (1 + self.message_id)", "self.message_id = 0xFFFF & (self.message_id - 1)")]),
-]
+MUTATIONS = []
+CONTROLS = []
+for f in sorted(glob.glob(os.path.join(os.path.dirname(os.path.abspath(__file__)), "selftest.d", "*.py"))):
+    ns = runpy.run_path(f)
+    MUTATIONS += ns.get("MUTATIONS", [])
+    CONTROLS += ns.get("CONTROLS", [])
